@@ -2,17 +2,21 @@ import TantivyModel.Driver.Proto
 import TantivyModel.Model.Columnar.Column
 import TantivyModel.Model.Columnar.Writer
 import TantivyModel.Model.Columnar.CompactSpace
+import TantivyModel.Model.Columnar.DictMerge
+import TantivyModel.Model.Columnar.ColumnFile
 /-!
 Line protocol of the C08 model (fast fields / columnar).
 
   pack <w> <vals>                    -> hex of BitPacker output
   unpack <w> <hex> <idxs>            -> values BitUnpacker::get returns at idxs (`bad-width` if refused)
+  rangeids <w> <hex> <lo> <hi> <s> <e> -> positions BitUnpacker::get_ids_for_value_range reports
   numbits <n>                        -> compute_num_bits
   stats <vals>                       -> `min max gcd rows`
   transform <min> <gcd> <lo> <hi>    -> `a b` | none (transform_range_before_linear_transformation as the source has it)
   encode <codec> <vals>              -> hex of the column values (codec byte included) | none
   decode <hex> <idxs|all>            -> `codec min max gcd rows;v,v,..` | corrupt
   decode128 <hex> <idxs|all>         -> `rows min max bits ranges;v,v,..` of a compact-space u128 column | corrupt
+  range128 <hex> <lo> <hi> <s> <e>   -> positions get_row_ids_for_value_range reports on a compact-space column
   optenc <numRows> <rows>            -> hex of serialize_optional_index
   optidx <hex> <docs> <ranks>        -> `numDocs numNonNull;rank..;rankIfExists..;select..` (x = none)
   i64_to_u64 / u64_to_i64 / f64_to_u64 / u64_to_f64 <bits>
@@ -21,7 +25,21 @@ Line protocol of the C08 model (fast fields / columnar).
   shuffle <order> <inputs>           -> rows of read(mergeShuffled); order `seg:row,seg:row`,
                                         inputs separated by `/`, each `~n` (missing, n docs) or rows
   stack <inputs>                     -> rows of read(mergeStacked)
+  colrange <lo> <hi> <s> <e> <rows>  -> Column::get_docids_for_value_range on the written column
   inrange <lo> <hi> <rows>           -> docsInRange
+  dictalive <alive> <order> <dicts> <inputs> -> the same with the term bitsets computed by the model: alive
+                                        per segment `*` (no alive bitset) or the alive rows
+  dictstack <dicts> <inputs>         -> `merged;rows` of merge_bytes_or_str_column under MergeRowOrder::Stack
+  colfile <hex> <docs|all>           -> `card numDocs numVals;rows` open_column_u64 on a whole column file and
+                                        values_for_doc of the docs | corrupt
+  colfilebytes <hex> <docs|all>      -> `dictLen card numDocs numVals;rows` open_column_bytes on a Str / Bytes column file
+  colfile128 <hex> <docs|all>        -> the same through open_column_u128 (compact-space values)
+  dictshuffle <used> <order> <dicts> <inputs> -> `merged;rows` of merge_bytes_or_str_column: the merged
+                                        dictionary and the rows of remapped ordinals (inputs: rows of old ordinals)
+  dictmerge <used> <dicts>           -> `merged;map/map/..` of merge_dict_and_compute_term_ord_mapping: dicts
+                                        separated by `/` (terms as ranks), used per segment `*` (every
+                                        ordinal) or the ordinals surviving rows use; map: new ordinal per old
+                                        ordinal of the segment (x = not registered)
 -/
 namespace TantivyModel.Driver.C08
 open TantivyModel TantivyModel.Proto TantivyModel.Columnar
@@ -62,6 +80,28 @@ def parseInput (s : String) : Option (MergeInput Nat) :=
 def parseInputs (s : String) : Option (List (MergeInput Nat)) :=
   if s == "-" then some [] else (s.splitOn "/").mapM parseInput
 
+def parseUsed (s : String) : Option (List (Option (List Nat))) :=
+  (s.splitOn "/").mapM (fun t => if t == "*" then some none else (natList t).map some)
+
+def usedFn (u : List (Option (List Nat))) (s o : Nat) : Bool :=
+  match u.getD s (some []) with
+  | none => true
+  | some l => l.contains o
+
+def showColFile (r : Option (Option ColFile)) (docs : String) : String :=
+  match r with
+  | some (some f) =>
+    let n := f.idx.numDocs f.vals.length
+    let card := match f.idx with | .full => 0 | .optional _ => 1 | .multivalued _ _ => 2
+    match (if docs == "all" then some (List.range n) else natList docs) with
+    | some ds =>
+      if ds.all (fun d => decide (d < n)) then
+        s!"{card} {n} {f.vals.length};{showRows (ds.map f.readRow)}"
+      else "bad-op"
+    | none => "bad-op"
+  | some none => "corrupt"
+  | none => "bad-op"
+
 def parseCard : String → Option (Option Card)
   | "auto" => some none
   | "full" => some (some .full)
@@ -81,6 +121,11 @@ def handle : List String → String
     | some w, some data, some is =>
       if unpackerWidthOk w then showNatList (is.map (fun i => unpackGet w i data)) else "bad-width"
     | _, _, _ => "bad-op"
+  | ["rangeids", w, h, lo, hi, st, en] =>
+    match w.toNat?, bytesArg h, lo.toNat?, hi.toNat?, st.toNat?, en.toNat? with
+    | some w, some data, some lo, some hi, some st, some en =>
+      if unpackerWidthOk w then showNatList (unpackRangeIds w data lo hi st en) else "bad-width"
+    | _, _, _, _, _, _ => "bad-op"
   | ["numbits", n] =>
     match n.toNat? with
     | some n => toString (computeNumBits n)
@@ -132,6 +177,14 @@ def handle : List String → String
         | none => "bad-op"
       | none => "corrupt"
     | none => "bad-op"
+  | ["range128", h, lo, hi, st, en] =>
+    match bytesArg h, lo.toNat?, hi.toNat?, st.toNat?, en.toNat? with
+    | some bytes, some lo, some hi, some st, some en =>
+      match openU128Column bytes with
+      | some c =>
+        showNatList (compactRangeRows c.ranges ((List.range c.numVals).map (fun i => unpackGet c.numBits i c.data)) lo hi st en)
+      | none => "corrupt"
+    | _, _, _, _, _ => "bad-op"
   | ["optenc", n, rows] =>
     match n.toNat?, natList rows with
     | some n, some rs => hexOfBytes (ofNats (optEnc rs n))
@@ -170,6 +223,47 @@ def handle : List String → String
     match parseInputs inputs with
     | some ins => let m := mergeStacked ins; showRows (read m.1 m.2)
     | none => "bad-op"
+  | ["colrange", lo, hi, st, en, rows] =>
+    match lo.toNat?, hi.toNat?, st.toNat?, en.toNat?, parseRows rows with
+    | some lo, some hi, some st, some en, some rows =>
+      let e := writerEncode rows
+      showNatList (docidsForValueRange id e.1 e.2 lo hi st en)
+    | _, _, _, _, _ => "bad-op"
+  | ["dictmerge", used, dicts] =>
+    match parseUsed used, (dicts.splitOn "/").mapM natList with
+    | some u, some ds =>
+      let m := mergeDicts (usedFn u) ds
+      let maps := (List.range ds.length).map (fun s =>
+        showOptList ((List.range (ds.getD s []).length).map (fun o => remapOrd m s o)))
+      showNatList m.merged ++ ";" ++ "/".intercalate maps
+    | _, _ => "bad-op"
+  | ["dictshuffle", used, order, dicts, inputs] =>
+    match parseUsed used, parseOrder order, (dicts.splitOn "/").mapM natList, parseInputs inputs with
+    | some u, some o, some ds, some ords =>
+      let ins : List DictInput := (ds.zip ords).map (fun p => ⟨p.1, p.2⟩)
+      let m := mergeDictColumnAs (shuffledCard o ords) (usedFn u) o ins
+      showNatList m.1 ++ ";" ++ showRows (read m.2.1 m.2.2)
+    | _, _, _, _ => "bad-op"
+  | ["dictalive", alive, order, dicts, inputs] =>
+    match parseUsed alive, parseOrder order, (dicts.splitOn "/").mapM natList, parseInputs inputs with
+    | some al, some o, some ds, some ords =>
+      let ins : List DictInput := (ds.zip ords).map (fun p => ⟨p.1, p.2⟩)
+      let m := mergeDictColumnAs (shuffledCard o ords) (usedOf al ins) o ins
+      showNatList m.1 ++ ";" ++ showRows (read m.2.1 m.2.2)
+    | _, _, _, _ => "bad-op"
+  | ["dictstack", dicts, inputs] =>
+    match (dicts.splitOn "/").mapM natList, parseInputs inputs with
+    | some ds, some ords =>
+      let m := mergeDictColumnStacked ((ds.zip ords).map (fun p => ⟨p.1, p.2⟩))
+      showNatList m.1 ++ ";" ++ showRows (read m.2.1 m.2.2)
+    | _, _ => "bad-op"
+  | ["colfile", h, docs] => showColFile ((bytesArg h).map openColumnFile) docs
+  | ["colfilebytes", h, docs] =>
+    match (bytesArg h).map openBytesColumnFile with
+    | some (some (d, f)) => s!"{d.length} " ++ showColFile (some (some f)) docs
+    | some none => "corrupt"
+    | none => "bad-op"
+  | ["colfile128", h, docs] => showColFile ((bytesArg h).map openColumnFile128) docs
   | ["inrange", lo, hi, rows] =>
     match lo.toNat?, hi.toNat?, parseRows rows with
     | some lo, some hi, some rows => showNatList (docsInRange id rows lo hi)
